@@ -5,8 +5,9 @@ import RrModel.Generated.Facts
   over a whole redirect chain on the cached model (Model.RedirectCache.run).
 
   Proved there already: `fill_then_hit` (the one-hop case, no side conditions beyond freshness),
-  `hit_replays_entry`, `fill_stores_entry`, `found_reentry` (the Found site is a pure re-entry),
-  `uncacheable_redirect_not_followed`, and the refutation of termination (`found_cycle_runs_away`).
+  `hit_replays_entry`, `fill_stores_entry`, `found_reentry` (the Found site is a re-entry that only
+  counts the redirect), `uncacheable_redirect_not_followed`, and termination (`cached_terminates`,
+  `found_loop_508`: since the repair of findings C18-a / C18-c every re-entry is a counted redirect).
 
   What makes the many-hop case more than an induction over `fill_then_hit`:
 
